@@ -61,3 +61,34 @@ def hpd(rng, D, cond=10.0, complex_=True):
 
 def cnormal(rng, shape):
     return rng.normal(size=shape) + 1j * rng.normal(size=shape)
+
+
+# ----------------------------------------------------------------------------- memory layouts of caller arrays
+MEMORY_KINDS = ('c', 'f', 'lead-permuted', 'strided', 'readonly', 'reversed')
+
+
+def relayout(a, how):
+    """the same VALUES as `a` in another memory layout (what a caller may legitimately pass: a transposed view, a slice of
+    a larger buffer, a Fortran-ordered or read-only array).  Deterministic, so a replay file only has to name `how`."""
+    a = np.asarray(a)
+    if how in (None, 'c') or a.ndim == 0:
+        return np.ascontiguousarray(a)
+    if how == 'f':
+        return np.asfortranarray(a)
+    if how == 'lead-permuted':
+        if a.ndim < 2:
+            return np.ascontiguousarray(a)
+        # stored with the first two axes exchanged, presented in the original axis order (a transposed view)
+        return np.swapaxes(np.ascontiguousarray(np.swapaxes(a, 0, 1)), 0, 1)
+    if how == 'strided':
+        big = np.zeros(a.shape[:-1] + (2 * a.shape[-1] + 1,), dtype=a.dtype)
+        big[..., 1::2] = a
+        return big[..., 1::2]
+    if how == 'reversed':
+        b = np.ascontiguousarray(a[..., ::-1])
+        return b[..., ::-1]
+    if how == 'readonly':
+        b = np.ascontiguousarray(a).copy()
+        b.setflags(write=False)
+        return b
+    raise ValueError(how)
